@@ -1,7 +1,8 @@
 /-
 The reviewed shape of the Go functions that Model/PathMatch.lean mirrors, statement by statement
 (provider/auth/path_matcher.go, provider/auth/user.go, utils/scan/scanner.go), as rendered by the
-translator harness/tr/c16 (`skeleton`).  Props/C16.lean `c16_source_facts` demands that the
+translator harness/tr/c16 (`skeleton`; of `User.init` and `CopyFrom` only the statements about the
+administrator flag, the rights and the matchers — name and password handling is not C16's).  Props/C16.lean `c16_source_facts` demands that the
 skeletons regenerated from the current source (Gen/AuthFacts.lean) equal these: any edit of one of
 these functions other than comments/layout breaks the obligation, and the check then searches for
 an input on which the implementation leaves the documented language.
@@ -14,9 +15,9 @@ def pmSkel_Match : List String := ["path = strings.ToLower(strings.Trim(path, \"
 def pmSkel_AlwaysMatch : List String := ["return true", "end"]
 def pmSkel_partCount : List String := ["n := 0", "for", "i := strings.IndexByte(s, '/')", "if i == -1", "return n", "end", "n++", "s = s[i+1:]", "end", "end"]
 def pmSkel_initMatchers : List String := ["advance := access", "pathMask := \"\"", "continueScan := true", "for continueScan", "advance, pathMask, continueScan = scan.Semicolon.Scan(advance)", "if len(pathMask) == 0", "continue", "end", "*destMatcher = append(*destMatcher, NewPathMatcher(pathMask))", "end", "end"]
-def pmSkel_userInit : List String := ["u.Name = strings.ToLower(u.Name)", "if u.Admin", "if len(u.PullAccess) == 0", "u.PullAccess = \"*\"", "end", "if len(u.PushAccess) == 0", "u.PushAccess = \"*\"", "end", "end", "u.pushMatchers = nil", "u.pullMatchers = nil", "initMatchers(u.PushAccess, &u.pushMatchers)", "initMatchers(u.PullAccess, &u.pullMatchers)", "return nil", "end"]
+def pmSkel_userInit : List String := ["if u.Admin", "if len(u.PullAccess) == 0", "u.PullAccess = \"*\"", "end", "if len(u.PushAccess) == 0", "u.PushAccess = \"*\"", "end", "end", "u.pushMatchers = nil", "u.pullMatchers = nil", "initMatchers(u.PushAccess, &u.pushMatchers)", "initMatchers(u.PullAccess, &u.pullMatchers)", "end"]
 def pmSkel_ValidatePermission : List String := ["var matchers []PathMatcher", "switch right", "case PushRight", "matchers = u.pushMatchers", "end", "case PullRight", "matchers = u.pullMatchers", "end", "end", "if matchers == nil", "return false", "end", "path = strings.TrimSpace(path)", "range _, matcher := matchers", "if matcher.Match(path)", "return true", "end", "end", "return false", "end"]
-def pmSkel_CopyFrom : List String := ["if withPassword", "u.Password = src.Password", "end", "u.Admin = src.Admin", "u.PushAccess = src.PushAccess", "u.PullAccess = src.PullAccess", "u.init()", "end"]
+def pmSkel_CopyFrom : List String := ["u.Admin = src.Admin", "u.PushAccess = src.PushAccess", "u.PullAccess = src.PullAccess", "u.init()", "end"]
 def pmSkel_Scan : List String := ["i := strings.IndexRune(str, s.delim)", "if i < 0", "return \"\", strings.TrimFunc(str, s.trimFunc), false", "end", "return strings.TrimFunc(str[i+s.delimLen:], s.trimFunc), strings.TrimFunc(str[:i], s.trimFunc), true", "end"]
 def pmSkel_NewScanner : List String := ["scanner := Scanner{ delim: delim, trimFunc: trimFunc, }", "scanner.delimLen = utf8.RuneLen(delim)", "if trimFunc == nil", "scanner.trimFunc = func(r rune) bool { return false }", "end", "return scanner", "end"]
 def accessRights : String := "PullRight AccessRight = 1 << iota;PushRight;"
